@@ -158,6 +158,7 @@ package getty
 //@   modifies ghost.begin_sends, ghost.commit_sends, ghost.rollback_sends, ghost.other_sends, ghost.commit_acked, ghost.rollback_acked, ghost.last_send_failed, ghost.commit_xid, ghost.rollback_xid, ghost.begin_xid
 //@   ensures ghost.last_send_failed == (result1 != nil)
 //@   ensures result1 == nil && isT(msg, message.GlobalBeginRequest) ==> ghost.begin_xid == result0.(message.GlobalBeginResponse).Xid
+//@   ensures !(result1 == nil && isT(msg, message.GlobalBeginRequest)) ==> ghost.begin_xid == old(ghost.begin_xid)
 //@   ensures ghost.begin_sends == old(ghost.begin_sends) + ite(isT(msg, message.GlobalBeginRequest), 1, 0)
 //@   ensures ghost.commit_sends == old(ghost.commit_sends) + ite(isT(msg, message.GlobalCommitRequest), 1, 0)
 //@   ensures ghost.rollback_sends == old(ghost.rollback_sends) + ite(isT(msg, message.GlobalRollbackRequest), 1, 0)
